@@ -39,6 +39,9 @@ type c07It struct {
 	Wait string `json:"wait,omitempty"` // gate(s) awaited before the act, comma separated
 	Sig  string `json:"sig,omitempty"`  // gate closed after the act returned
 	Y    int    `json:"y,omitempty"`    // yields before working
+	// ErrKind: which error value cancel / the Finish function supplies: "" (a harness error) | ctx-canceled |
+	// deadline | cancelnil-sentinel | noout | wrapped-canceled | wrapped-deadline | wrapped-noout
+	ErrKind string `json:"err_kind,omitempty"`
 }
 
 type c07Red struct {
@@ -71,6 +74,10 @@ type c07Sc struct {
 	// scenario so that the mapper can map the value back to its index
 	// (kinds: nil | nil-ptr | empty-string | false | empty-struct; item 0 is the int zero anyway)
 	Special []c07Special `json:"special,omitempty"`
+	// WSpecial: mapper-written values that are zero values instead of the tagged struct: At = item index, the
+	// FIRST value written by that item; each kind at most once per scenario
+	// (kinds: nil | nil-ptr | empty-string | false | empty-struct | int0)
+	WSpecial []c07Special `json:"wspecial,omitempty"`
 	// Probe: the last item is a probe: when its send completes gate "px" is closed and the generator waits for "rw"
 	Probe bool `json:"probe,omitempty"`
 	// OutVal selects what the reducer writes: "" (a tagged struct) | nil | int0 | empty-string | false | nil-ptr | empty-struct
@@ -132,6 +139,84 @@ func (sc *c07Sc) itemVal(i int) any {
 	return i
 }
 
+func c07ZeroOf(kind string) (any, bool) {
+	switch kind {
+	case "nil":
+		return nil, true
+	case "nil-ptr":
+		return (*int)(nil), true
+	case "empty-string":
+		return "", true
+	case "false":
+		return false, true
+	case "empty-struct":
+		return struct{}{}, true
+	case "int0":
+		return 0, true
+	}
+	return nil, false
+}
+
+func c07KindOf(v any) string {
+	switch t := v.(type) {
+	case nil:
+		return "nil"
+	case *int:
+		if t == nil {
+			return "nil-ptr"
+		}
+	case string:
+		if t == "" {
+			return "empty-string"
+		}
+	case bool:
+		if !t {
+			return "false"
+		}
+	case struct{}:
+		return "empty-struct"
+	case int:
+		if t == 0 {
+			return "int0"
+		}
+	}
+	return ""
+}
+
+// writeVal is what the mapper of item id hands to Write as its k-th value.
+func (sc *c07Sc) writeVal(id, k int) any {
+	if k == 0 {
+		for _, sp := range sc.WSpecial {
+			if sp.At == id {
+				if z, ok := c07ZeroOf(sp.Kind); ok {
+					return z
+				}
+			}
+		}
+	}
+	return c07Val{id, k}
+}
+
+// valIndex maps a value received by the reducer back to (item, k).
+func (sc *c07Sc) valIndex(v any) (c07Val, bool) {
+	if cv, ok := v.(c07Val); ok {
+		for _, sp := range sc.WSpecial {
+			if sp.At == cv.id && cv.k == 0 {
+				return cv, false // that value was written as a zero value, not as the struct
+			}
+		}
+		return cv, true
+	}
+	if kind := c07KindOf(v); kind != "" {
+		for _, sp := range sc.WSpecial {
+			if sp.Kind == kind {
+				return c07Val{sp.At, 0}, true
+			}
+		}
+	}
+	return c07Val{}, false
+}
+
 // itemIndex maps a value received by a mapper back to the generated index (-1 = never generated).
 func (sc *c07Sc) itemIndex(item any) int {
 	kind := ""
@@ -177,6 +262,7 @@ func (e *c07Err) Error() string { return "c07 cancel by " + e.who }
 
 type c07CancelEv struct {
 	key        string
+	err        error // the value supplied to cancel / returned by the Finish function (nil for cancel(nil))
 	start, end int64
 }
 
@@ -375,11 +461,38 @@ func c07Yield(n int) {
 }
 
 // doCancel calls the library's cancel function and records the call.
-func (x *c07Run) doCancel(cancel func(error), who string, withNil bool) {
+// c07MkErr builds the error value a callback supplies.
+func c07MkErr(who, kind string) error {
+	switch kind {
+	case "ctx-canceled":
+		return context.Canceled
+	case "deadline":
+		return context.DeadlineExceeded
+	case "cancelnil-sentinel":
+		return mr.ErrCancelWithNil
+	case "noout":
+		return mr.ErrReduceNoOutput
+	case "wrapped-canceled":
+		return fmt.Errorf("c07 %s: %w", who, context.Canceled)
+	case "wrapped-deadline":
+		return fmt.Errorf("c07 %s: %w", who, context.DeadlineExceeded)
+	case "wrapped-noout":
+		return fmt.Errorf("c07 %s: %w", who, mr.ErrReduceNoOutput)
+	}
+	return &c07Err{who: who}
+}
+
+func (x *c07Run) doCancel(cancel func(error), who string, withNil bool, kind ...string) {
 	ev := &c07CancelEv{key: "err:" + who}
-	var e error = &c07Err{who: who}
+	k := ""
+	if len(kind) > 0 {
+		k = kind[0]
+	}
+	e := c07MkErr(who, k)
+	ev.err = e
 	if withNil {
 		ev.key = "cancelnil"
+		ev.err = nil
 		e = nil
 	}
 	x.mu.Lock()
@@ -466,7 +579,7 @@ func (x *c07Run) act(it c07It, who string, cancel func(error)) {
 	switch it.Act {
 	case "cancel":
 		x.arm(it.Sig)
-		x.doCancel(cancel, who, false)
+		x.doCancel(cancel, who, false, it.ErrKind)
 	case "cancelnil":
 		x.arm(it.Sig)
 		x.doCancel(cancel, who, true)
@@ -498,7 +611,7 @@ func (x *c07Run) mapper(item any, w mr.Writer, cancel func(error)) {
 			x.mu.Lock()
 			x.wrote[v]++
 			x.mu.Unlock()
-			w.Write(v)
+			w.Write(x.sc.writeVal(id, k))
 		}
 	}
 }
@@ -531,12 +644,12 @@ func (x *c07Run) finishFn(id int) func() error {
 		switch it.Act {
 		case "err":
 			x.wait(it.Wait)
-			ev := &c07CancelEv{key: "err:" + who}
+			ev := &c07CancelEv{key: "err:" + who, err: c07MkErr(who, it.ErrKind)}
 			x.mu.Lock()
 			x.cancels = append(x.cancels, ev)
 			ev.start = vk.Seq()
 			x.mu.Unlock()
-			return &c07Err{who: who}
+			return ev.err
 		case "":
 		default:
 			x.act(it, who, nil)
@@ -602,7 +715,7 @@ func (x *c07Run) reducer(pipe <-chan any, w mr.Writer, cancel func(error)) {
 		}
 		n++
 		x.mu.Lock()
-		if cv, isVal := v.(c07Val); isVal {
+		if cv, isVal := x.sc.valIndex(v); isVal {
 			x.got[cv]++
 		} else {
 			x.badItems = append(x.badItems, fmt.Sprintf("reducer got %#v", v))
@@ -740,6 +853,15 @@ func (x *c07Run) key(o c07Outcome) string {
 		return "return"
 	}
 	if o.err != nil {
+		// the error must be exactly the value a callback supplied (identity)
+		x.mu.Lock()
+		for _, c := range x.cancels {
+			if c.err != nil && o.err == c.err {
+				x.mu.Unlock()
+				return c.key
+			}
+		}
+		x.mu.Unlock()
 		var ce *c07Err
 		switch {
 		case o.err == mr.ErrReduceNoOutput:
